@@ -45,6 +45,8 @@ class Prop(SeqProp):
         for _ in range(n):
             m = rng.choice([0, 1, 2, 3, 4, 6, 9])
             universe = rng.choice([8, 20, 60])
+            # the number line is centred on 0: ends that are exactly 0 / -0.0 and negative bounds are ordinary inputs
+            shift = rng.choice([0, universe, universe, 2 * (universe // 2)])
             ivs = []
             if rng.random() < 0.6:
                 # mostly valid: cut disjoint intervals from a shuffled partition
@@ -61,6 +63,13 @@ class Prop(SeqProp):
                     if a > b and rng.random() < 0.8:
                         a, b = b, a
                     ivs.append((a, b))
+            ivs = [(a - shift, b - shift) for a, b in ivs]
+            if ivs and rng.random() < 0.3:
+                # a neighbour that shares exactly one point with an existing interval (touching), or sits inside it
+                a = rng.choice(ivs)
+                ivs.append(rng.choice([(a[1], a[1] + rng.randint(0, 4)), (a[0] - rng.randint(0, 4), a[0]), (a[0], a[0]),
+                                       (a[1], a[1])]))
+                rng.shuffle(ivs)
             yield self.mk(ivs)
 
     def run_impl(self, case):
